@@ -2357,7 +2357,7 @@ func (p *Peer) PassThroughQuery(ctx context.Context, res *Response, passthroughR
 			for j := range res.request.RequestColumns {
 				keyValues = append(keyValues, interface2stringNoDedup(row[j]))
 			}
-			key := strings.Join(keyValues, ListSepChar1)
+			key := joinStatsKey(keyValues)
 
 			if _, ok := res.request.StatsResult.Stats[key]; !ok {
 				res.request.StatsResult.Stats[key] = createLocalStatsCopy(res.request.Stats)
